@@ -23,6 +23,9 @@ type sOp struct {
 type cbPolicy struct {
 	Take  int  `json:"take"`
 	Close bool `json:"close,omitempty"`
+	// More > 0: the invocation asks the reader for up to More bytes beyond what has arrived (a message that spans several
+	// flushes): it waits inside OnData until the peer's next flush - bounded by what the peer is going to flush at all
+	More int `json:"more,omitempty"`
 }
 
 type sEnd struct {
@@ -72,6 +75,7 @@ type endHist struct {
 	closedLocallyAt int // bytes consumed by OnData when local Close was called (-1 none)
 	onDataAfterLocalClose bool
 	afterCloseTrace       string
+	waitedInOnData        int
 	onDataSeenClosed      int
 	closedInCallback bool
 }
@@ -96,6 +100,9 @@ type cbAdapter struct {
 	ackAt int
 	acked bool
 	fail  func(string, ...interface{})
+	// expect: bytes the peer's programs are going to flush in total (bound for More)
+	expect int
+	noMore bool
 }
 
 func (a *cbAdapter) OnData(reader BufferReader) {
@@ -122,9 +129,24 @@ func (a *cbAdapter) OnData(reader BufferReader) {
 	if p.Take > 0 && p.Take < n {
 		n = p.Take
 	}
+	waits := false
+	if p.More > 0 && !a.noMore {
+		more := a.expect - len(e.read) - reader.Len()
+		if more > p.More {
+			more = p.More
+		}
+		if more > 0 {
+			n = reader.Len() + more
+			waits = true
+			e.waitedInOnData++
+		}
+	}
 	if n > 0 {
 		b, err := reader.ReadBytes(n)
-		if err != nil {
+		if err != nil && waits {
+			// the rest never came (a close ended the wait): nothing was consumed; later invocations take what is there
+			a.noMore = true
+		} else if err != nil {
 			a.fail("OnData: ReadBytes(%d) with Len()=%d failed: %v", n, reader.Len(), err)
 		} else {
 			e.read = append(e.read, b...)
@@ -155,6 +177,22 @@ func (a *cbAdapter) OnRemoteClose() {
 	if a.e.remoteCloseBeforeBytes < 0 {
 		a.e.remoteCloseBeforeBytes = len(a.e.read)
 	}
+}
+
+// flushTotal: bytes the programs of one end are going to flush
+func flushTotal(e sEnd) int {
+	n := 0
+	for _, p := range [][]sOp{e.Prog, e.Prog2} {
+		for _, op := range p {
+			if op.K == "flush" {
+				n += op.N
+			}
+		}
+	}
+	if len(e.CB) > 0 && e.AckAt > 0 {
+		n++
+	}
+	return n
 }
 
 type simListenCB struct{ onNew func(s *Stream) }
@@ -202,7 +240,7 @@ func runStreamsObs(c streamsCase, r *runCtx, setup func(h *streamsHist)) *stream
 		e := h.ends[i][1]
 		e.stream = s
 		if len(c.Streams[i].S.CB) > 0 {
-			if err := s.SetCallbacks(&cbAdapter{h: h, e: e, pol: c.Streams[i].S.CB, key: s.id, ackAt: c.Streams[i].S.AckAt, fail: fail}); err != nil {
+			if err := s.SetCallbacks(&cbAdapter{h: h, e: e, pol: c.Streams[i].S.CB, key: s.id, ackAt: c.Streams[i].S.AckAt, fail: fail, expect: flushTotal(c.Streams[i].C)}); err != nil {
 				fail("SetCallbacks: %v", err)
 			}
 		}
@@ -326,7 +364,7 @@ func runStreamsObs(c streamsCase, r *runCtx, setup func(h *streamsHist)) *stream
 		ce := h.ends[i][0]
 		ce.stream = st
 		if len(c.Streams[i].C.CB) > 0 {
-			if err := st.SetCallbacks(&cbAdapter{h: h, e: ce, pol: c.Streams[i].C.CB, key: st.id, ackAt: c.Streams[i].C.AckAt, fail: fail}); err != nil {
+			if err := st.SetCallbacks(&cbAdapter{h: h, e: ce, pol: c.Streams[i].C.CB, key: st.id, ackAt: c.Streams[i].C.AckAt, fail: fail, expect: flushTotal(c.Streams[i].S)}); err != nil {
 				harnessFail("SetCallbacks: %v", err)
 			}
 		}
